@@ -13,7 +13,7 @@ from engine.runner import jnum, unj, active_regions
 ID = 'C04'
 ENGINE = 'PYSYM + IRSYM'
 TECHNIQUE = 'symbolic execution of dtw.warping_paths and of the C warping-paths / expansion kernels (LLVM IR) into exactly sized buffers; cell-wise SMT queries against the optimal-partial-path oracle (z3)'
-BUDGET = {'quick': 420, 'thorough': 3000}
+BUDGET = {'quick': 420, 'thorough': 1800}
 SOURCES = ['src/dtaidistance/dtw.py', 'src/dtaidistance/dtw_cc.pyx', 'src/DTAIDistanceC/DTAIDistanceC/dd_dtw.c',
            'src/dtaidistance/innerdistance.py']
 FUNCTIONS = ['dtw.warping_paths', 'dd_dtw.c dtw_warping_paths, dtw_warping_paths_ndim, dtw_warping_paths_ndim_euclidean',
